@@ -109,6 +109,10 @@ func (f *FlowMod) MarshalBinary() (data []byte, err error) {
 	data = append(data, bytes...)
 
 	for _, instr := range f.Instructions {
+		if f.Command == FC_DELETE || f.Command == FC_DELETE_STRICT {
+			// Len() and the header length exclude instructions for delete commands
+			break
+		}
 		bytes, err = instr.MarshalBinary()
 		data = append(data, bytes...)
 		log.Debugf("flowmod instr: %v", bytes)
